@@ -15,6 +15,9 @@
   `decodeOK_contiguous`: `DecodeOK` for an encoded contiguous-counts payload (the second layout the paginated encoder
   writes; `decodeOK_deltas` is the first), given int32 indexes and `NonnegFin (cntOf b)` for each pattern written.
 
+  `cntOf_eq_vfValue`, `nonnegFin_cntOf_vfBits`: the pattern `Sketch.vfBits w` written for a weight with `WOK w`, `0 ≤ w`
+  meets the count hypothesis of `decodeOK_contiguous`.
+
   Core Lean only.
 -/
 import DDS.Proofs.GenPagSketch5
@@ -131,4 +134,10 @@ theorem decodeOK_contiguous (x : GPS grow) (start stride : Int) (counts : List N
     rw [ccCounts_enc R counts hW] at hc'
     obtain ⟨b, hb, rfl⟩ := List.mem_map.1 hc'
     exact hc b hb
+/-- `cntOf` is the hand model's `Wire.vfValue` -/
+theorem cntOf_eq_vfValue (b : Nat) : cntOf b = Wire.vfValue b := rfl
+
+/-- the pattern the encoder writes for a weight `w` with `WOK w`, `0 ≤ w`, decodes to a finite non-negative count -/
+theorem nonnegFin_cntOf_vfBits (w : Rat) (h : WOK w) (h0 : 0 ≤ w) : NonnegFin (cntOf (Sketch.vfBits w)) :=
+  ⟨w, by rw [cntOf_eq_vfValue]; exact RoundTrip.vfValue_vfBits w h, h0⟩
 end DDS.GenPagSketch
